@@ -88,8 +88,16 @@ bool SameCanon(const Canon<Mesh>& a, const Canon<Mesh>& b, Outcome& o, const cha
       o.fail(std::string("roundtrip:triangle-differs-") + tag, verif::fmt("sorted triangle %zu differs at field %zu of %zu (%.17g vs %.17g)", i, j, a.tris[i].key.size(), j < a.tris[i].key.size() ? a.tris[i].key[j] : 0.0, j < b.tris[i].key.size() ? b.tris[i].key[j] : 0.0));
       return false;
     }
-    for (size_t j = 0; j < a.tris[i].normals.size() && j < b.tris[i].normals.size(); ++j)
-      if (std::abs(a.tris[i].normals[j] - b.tris[i].normals[j]) > (sizeof(typename Canon<Mesh>::P) == 4 ? 1e-6 : 1e-12)) { o.fail(std::string("roundtrip:normal-differs-") + tag, verif::fmt("normal channel differs by %.3g", std::abs(a.tris[i].normals[j] - b.tris[i].normals[j]))); return false; }
+    // channels flagged as normals "may differ by renormalisation": the library renormalises them whenever it
+    // transforms (also on import), and Boolean interpolation leaves them slightly shorter than 1, so the
+    // directions are compared, not the raw values
+    auto na = a.tris[i].normals, nb = b.tris[i].normals;
+    for (auto* nv : {&na, &nb})
+      for (size_t c = 0; c + 2 < nv->size(); c += 3) { double l = std::sqrt((*nv)[c] * (*nv)[c] + (*nv)[c + 1] * (*nv)[c + 1] + (*nv)[c + 2] * (*nv)[c + 2]); if (l > 1e-30 && std::isfinite(l)) { (*nv)[c] /= l; (*nv)[c + 1] /= l; (*nv)[c + 2] /= l; } }
+    for (size_t j = 0; j < na.size() && j < nb.size(); ++j)
+      if (std::abs(na[j] - nb[j]) > (sizeof(typename Canon<Mesh>::P) == 4 ? 1e-6 : 1e-12)) {
+        if (getenv("VERIF_DEBUG")) { fprintf(stderr, "NORMALS tri %zu:", i); for (double v : a.tris[i].normals) fprintf(stderr, " %.9g", v); fprintf(stderr, " |"); for (double v : b.tris[i].normals) fprintf(stderr, " %.9g", v); fprintf(stderr, "\n"); }
+        o.fail(std::string("roundtrip:normal-differs-") + tag, verif::fmt("normal channel differs by %.3g", std::abs(a.tris[i].normals[j] - b.tris[i].normals[j]))); return false; }
   }
   return true;
 }
